@@ -180,6 +180,14 @@ def run(spec, res):
     if prepare is not None:
         prepare(P)
 
+    # functions of /repo that the obligation actually executes (measured on the first paths)
+    seen_funcs = set()
+
+    def _prof(frame, event, arg):
+        if event == "call":
+            co = frame.f_code
+            if co.co_filename.startswith("/repo/"):
+                seen_funcs.add("%s:%s" % (co.co_filename[6:-3].replace("/", "."), co.co_qualname))
     search_root = RootNode()
     t0 = time.process_time()
     exhausted = False
@@ -199,7 +207,13 @@ def run(spec, res):
             try:
                 ret = None
                 with ExceptionFilter() as efilter, ResumedTracing():
-                    ret = fn(P, S)
+                    if it <= 3:
+                        sys.setprofile(_prof)
+                    try:
+                        ret = fn(P, S)
+                    finally:
+                        if it <= 3:
+                            sys.setprofile(None)
                     ok = bool(ret)  # forks on a symbolic verdict: the solver decides both sides
                     if not ok:
                         res["cex"].append({"args": S.concrete(), "kind": "post", "tag": S.tag})
@@ -247,6 +261,7 @@ def run(spec, res):
     res["queries"] = stats["q"]
     res["solver_s"] = round(stats["t"], 3)
     res["samples"] = samples
+    res["functions"] = sorted(seen_funcs)
     res["cpu_s"] = round(time.process_time() - t0, 2)
     if res["cex"]:
         res["status"] = "CANDIDATE"
